@@ -18,10 +18,46 @@ def resolve_class(path):
     return modular._resolve_class(path)
 
 
+class FakeConnection(object):
+    """Native stand-in for the socket model: delivers `remaining` according to a chunking
+    strategy: 'all' (as much as asked), 'ones' (one byte at a time), 'one-then-max'."""
+
+    def __init__(self, remaining, strategy='all'):
+        self.remaining = bytes(remaining)
+        self.strategy = strategy
+        self.calls = 0
+        self.sent = []
+
+    def recv(self, n):
+        self.calls += 1
+        if not self.remaining:
+            return b''
+        k = n
+        if self.strategy == 'ones' or (self.strategy == 'one-then-max' and self.calls == 1):
+            k = 1
+        k = max(1, min(k, n, len(self.remaining)))
+        out, self.remaining = self.remaining[:k], self.remaining[k:]
+        return out
+
+    def sendall(self, b):
+        self.sent.append(bytes(b))
+
+    def shared_ciphers(self):
+        return None
+
+    def cipher(self):
+        return None
+
+
+CONNECTION_STRATEGY = ['all']
+
+
 def build_native(v, memo=None):
     """Counterexample value (from concretize) -> native Python object."""
     if memo is None:
         memo = {}
+    if isinstance(v, dict) and v.get('__class__') == 'vf.envmodel.Connection':
+        return FakeConnection(v.get('remaining', b''), CONNECTION_STRATEGY[0])
     if isinstance(v, dict) and '__class__' in v:
         if id(v) in memo:
             return memo[id(v)]
@@ -42,6 +78,11 @@ def build_native(v, memo=None):
         return [build_native(x, memo) for x in v]
     if isinstance(v, tuple):
         return tuple(build_native(x, memo) for x in v)
+    if isinstance(v, str) and v == "<opaque logger>":
+        import logging
+        lg = logging.getLogger("verif.replay")
+        lg.disabled = True
+        return lg
     return v
 
 
@@ -68,6 +109,11 @@ def lift(v, memo=None, depth=0):
         for k, x in v.items():
             r[k] = lift(x, memo, depth + 1)
         return r
+    if isinstance(v, FakeConnection):
+        from . import envmodel
+        o = Obj(envmodel.Connection, {'remaining': v.remaining, 'sent': list(v.sent)})
+        memo[id(v)] = o
+        return o
     if isinstance(v, BaseException):
         e = ExcVal(type(v), tuple(lift(a, memo, depth + 1) for a in v.args))
         for k, x in getattr(v, '__dict__', {}).items():
@@ -119,6 +165,21 @@ def unjson(v):
 
 
 def replay_contract(c, obligation, cex):
+    """Replay under each socket chunking strategy (only matters for contracts whose inputs
+    contain the Connection model)."""
+    last = None
+    uses_conn = 'vf.envmodel.Connection' in repr(cex)
+    for strat in (['all', 'one-then-max', 'ones'] if uses_conn else ['all']):
+        CONNECTION_STRATEGY[0] = strat
+        last = _replay_contract(c, obligation, cex)
+        last["socket_chunking"] = strat
+        if last.get("confirmed"):
+            break
+    CONNECTION_STRATEGY[0] = 'all'
+    return last
+
+
+def _replay_contract(c, obligation, cex):
     """Run the real function on the counterexample and re-evaluate the failed
     clause on the real outcome.  -> dict(confirmed: bool|None, ...)"""
     out = {"function": c.qualname, "contract": c.key, "obligation": obligation,
@@ -217,6 +278,26 @@ def replay_contract(c, obligation, cex):
                 confirmed = False
         elif kind == 'frame':
             confirmed = None
+        elif kind.startswith('inv.') or kind.startswith('trace.') or kind.startswith('loop.'):
+            # an internal obligation: the witness is not a real execution prefix.  Run the real
+            # function and look for *any* violated clause of the contract.
+            viol = None
+            if raised is None:
+                for (n, src) in c.ensures_:
+                    if not I.cond(I.eval_spec(src, lifted_post, G, old, ex.cls)):
+                        viol = "post." + n
+                        break
+            else:
+                allowed = any(isinstance(raised, modular.resolve_exc_class(en, ex.module))
+                              for (en, w, e2, rn) in c.raises_)
+                if not allowed:
+                    viol = "raises.unexpected"
+                for chk in getattr(c, 'native_checks_', []):
+                    r = chk(pre, native, raised)
+                    if r is not True and r is not None:
+                        viol = str(r)
+            confirmed = True if viol else False
+            out["violated_clause"] = viol
         out["confirmed"] = confirmed
     except pyvc.Raised as r:
         out["confirmed"] = None
